@@ -5,6 +5,7 @@ from __future__ import annotations
 from vlib import core, sx
 from checks import enginelib as E
 from checks import histlib as H
+from vlib import proggen as pg
 
 THEOREMS = ["rec_history_refuted", "rec_history_mixed_refuted"]
 try:  # the list grows with the proof development; single source of truth is Props/C10.v
@@ -144,11 +145,19 @@ SOLVERS = [("slg", H.SLG), ("rec", H.REC), ("rec-ms5-cache", H.rec_with(100, Tru
 def solver_part(ctx):
     rng = ctx.rng
     progs = H.programs(rng, ctx.n(8, 40), seeded=True)
+    extra = {}      # program index -> (solver configurations, explicit histories)
+    for (p, goals, cfgs, hists) in H.size_programs():
+        extra[len(progs)] = (cfgs, hists)
+        progs.append((p, pg.to_text(p), goals, [pg.goal_text(g) for g in goals]))
     cases, index = [], []
     for pi, (p, text, goals, gts) in enumerate(progs):
-        ords = E.orders(rng, list(range(len(gts))), quick=ctx.quick, limit=ctx.n(2, 10))
-        ords = ords[:ctx.n(4, 12)]
-        for sname, solver in SOLVERS:
+        if pi in extra:
+            solvers, ords = extra[pi]
+        else:
+            solvers = SOLVERS
+            ords = E.orders(rng, list(range(len(gts))), quick=ctx.quick, limit=ctx.n(2, 10))
+            ords = ords[:ctx.n(4, 12)]
+        for sname, solver in solvers:
             for gi, gt in enumerate(gts):
                 index.append(("fresh", pi, sname, gi))
                 cases.append(H.case(text, solver, [H.solve_step(gt)]))
@@ -181,9 +190,9 @@ def solver_part(ctx):
             if a != fa and pair["viol"] is None:
                 hist_upto = list(o[:list(o).index(g) + 1]) if g in o else list(o)
                 cls = None
-                if sname == "slg" and H.f7_class(p, goals, list(o)):
+                if sname.startswith("slg") and H.f7_class(p, goals, list(o)):
                     cls = "F7-slg-coinductive-cycle"
-                elif sname == "slg" and H.f16_class(p, goals[g]):
+                elif sname.startswith("slg") and H.f16_class(p, goals[g]):
                     cls = "F16-slg-answer-order"
                 elif sname.startswith("rec") and H.mixed_class(p, goals):
                     cls = "F27-mixed-cycle"
@@ -246,7 +255,10 @@ def replay(ctx, obj):
         print("real :", out[0])
         print("model:", obj.get("model"))
     elif "program" in obj:
-        solver = dict(SOLVERS).get(obj.get("solver"), H.REC)
+        allcfg = dict(SOLVERS)
+        for (_p, _g, cfgs, _h) in H.size_programs():
+            allcfg.update(dict(cfgs))
+        solver = allcfg.get(obj.get("solver"), H.REC)
         cs = [H.case(obj["program"], solver, [H.solve_step(g) for g in obj.get("history", [obj["goal"]])]),
               H.case(obj["program"], solver, [H.solve_step(obj["goal"])])]
         res, outs = H.run(cs)
